@@ -34,6 +34,7 @@ SITES = {
     ("cfg/analysis.py", "BackwardAnalysis.run", "pop", "queue.pop()"): "C09: key sets unique for every pop order; the stored WITNESS block is a separate obligation below",
     ("cfg/cfg.py", "BaseCFG.update_reachable", "pop", "queue.pop()"): "proved here: least set closed under successors, for every pop order",
     ("compiler/core.py", "insert_drops", "next-iter", "next(iter(hugr.linked_ports(port)), None)"): "emptiness test only (compared with None)",
+    ("compiler/core.py", "CompilerContext.compile", "select", "min(mono_params, key=lambda p: p.idx)"): "the key is injective on the set: the parameters of one definition have pairwise distinct de Bruijn indices (C13 S5), so the minimum is unique",
 }
 
 REPLAY_ROWS = r'''
@@ -194,6 +195,9 @@ class Scanner(ast.NodeVisitor):
             self.add("next-iter", n)
         if isinstance(f, ast.Name) and f.id in ("list", "tuple", "enumerate") and n.args and self.is_set_expr(n.args[0]):
             self.add("materialise", n)
+        if isinstance(f, ast.Name) and f.id in ("min", "max", "sorted") and n.args and self.is_set_expr(n.args[0]):
+            # the selected element / the order depends on the enumeration order unless the key is injective on the set
+            self.add("select", n)
         self.generic_visit(n)
 
 
